@@ -19,10 +19,17 @@ DATA_ATTR_B = {"rawopt": "#[sv::data(opt, raw)]", "instopt": "#[sv::data(opt, in
 
 def legacy_method_src(prog, m):
     ok = "true" if m["outcome"] == "ok" else "false"
-    return ("        #[sv::msg(reply)]\n        #[allow(deprecated)]\n"
-            "        fn reply(&self, ctx: sylvia::types::ReplyCtx, reply: Reply) -> Result<Response, ContractError> {\n"
-            "            rec::reply_handler(\"%s\", \"reply\", rec::ctx_reply_legacy(&ctx), serde_json::json!({\"t\":\"-\"}), rec::reply_proj(&reply), vec![]);\n"
-            "            rec::touch(ctx.deps.storage, \"reply\");\n            rec::resp(\"reply\", 7, %s)\n        }\n") % (prog["id"], ok)
+    n = m["name"]
+    decoy = ""
+    if prog.get("decoy"):      # a handler of another kind that is called `reply` and takes a Reply: it must never be handed a reply
+        decoy = ("        #[sv::msg(sudo)]\n"
+                 "        fn reply(&self, ctx: sylvia::ctx::SudoCtx, reply: Reply) -> Result<Response, ContractError> {\n"
+                 "            rec::reply_handler(\"%s\", \"decoy:sudo reply\", serde_json::json!({}), serde_json::json!({\"t\":\"-\"}), rec::reply_proj(&reply), vec![]);\n"
+                 "            rec::resp(\"decoy\", 7, true)\n        }\n") % prog["id"]
+    return decoy + ("        #[sv::msg(reply)]\n        #[allow(deprecated)]\n"
+            "        fn %s(&self, ctx: sylvia::types::ReplyCtx, reply: Reply) -> Result<Response, ContractError> {\n"
+            "            rec::reply_handler(\"%s\", \"%s\", rec::ctx_reply_legacy(&ctx), serde_json::json!({\"t\":\"-\"}), rec::reply_proj(&reply), vec![]);\n"
+            "            rec::touch(ctx.deps.storage, \"%s\");\n            rec::resp(\"%s\", 7, %s)\n        }\n") % (n, prog["id"], n, n, n, ok)
 
 
 def method_src(prog, m):
